@@ -205,6 +205,21 @@ def st_disjoint_locs(draw, lo, hi, k, strand, defect_names=DEFECT_NAMES):
     ]
 
 
+def st_edits(lo, hi, max_locs=4):
+    """In-place edits of an Annotation, applied between repeated slices with the same bounds."""
+    feat = st_feature(lo, hi, max_locs=max_locs)
+    return st.lists(
+        st.one_of(
+            st.fixed_dictionaries({"op": st.just("iadd_annotation"), "features": st.lists(feat, max_size=3)}),
+            st.fixed_dictionaries({"op": st.just("iadd_feature"), "features": st.lists(feat, min_size=1, max_size=1)}),
+            st.fixed_dictionaries({"op": st.just("add_feature"), "features": st.lists(feat, min_size=1, max_size=1)}),
+            st.fixed_dictionaries({"op": st.just("del_feature"), "i": st.integers(0, 7)}),
+        ),
+        min_size=1,
+        max_size=3,
+    )
+
+
 def st_annotation_slice(tier):
     big = 40 if tier == "quick" else 120
 
@@ -229,6 +244,8 @@ def st_annotation_slice(tier):
             "features": feats, "start": a, "stop": b, "step": draw(st.sampled_from([None, 1, 2, -1])),
             # slice bounds as NumPy integers (e.g. taken from Feature.get_location_range())
             "np_bounds": draw(st.sampled_from([False, False, True])),
+            # the same object is edited in place and sliced again with the same bounds
+            "edits": draw(st_edits(lo - 5, lo + span + 5, max_locs)) if draw(st.integers(0, 2)) == 0 else [],
         }
 
     return gen()
@@ -280,6 +297,7 @@ def st_annotseq_slice(tier):
         base["stop"] = b
         base["np_bounds"] = draw(st.sampled_from([False, False, True]))
         base["seqtype"] = draw(st.sampled_from(SEQTYPES))
+        base["edits"] = draw(st_edits(lo - 6, hi_excl + 5)) if draw(st.integers(0, 2)) == 0 else []
         return base
 
     return gen()
@@ -381,6 +399,29 @@ def _slice_obj(o, case, obj, a, b, *step):
         return obj[slice(a, b, *step)]
 
 
+def _apply_edit(o, annot, cur, e):
+    """Apply one in-place edit to the Annotation and to the model list `cur`; returns the new list."""
+    from biotite.sequence import Annotation
+
+    op = e["op"]
+    if op == "del_feature":
+        if not cur:
+            return cur
+        target = cur[e["i"] % len(cur)]
+        annot.del_feature(_mk_feature(target))
+        key = model_annotation_set([target])
+        o.label("edit_del_feature")
+        return [f for f in cur if model_annotation_set([f]) != key]
+    if op == "iadd_annotation":
+        annot += Annotation([_mk_feature(f) for f in e["features"]])
+    elif op == "iadd_feature":
+        annot += _mk_feature(e["features"][0])
+    else:
+        annot.add_feature(_mk_feature(e["features"][0]))
+    o.label("edit_" + op)
+    return cur + list(e["features"])
+
+
 def run_annotation_slice(case):
     o = Outcome()
     a, b = case["start"], case["stop"]
@@ -402,6 +443,19 @@ def run_annotation_slice(case):
         "slice_does_not_mutate",
         "annotation changed by slicing",
     )
+    # the same object edited in place, then the same slice again: still the inside bases of the
+    # features the annotation holds *now*
+    cur = list(case["features"])
+    for k, e in enumerate(case.get("edits", [])):
+        cur = _apply_edit(o, annot, cur, e)
+        want_k, _ = model_slice(cur, lo, hi)
+        got_k = _annotation_set(_slice_obj(o, case, annot, a, b, case["step"]))
+        if not o.check(
+            got_k == want_k,
+            "slice_after_inplace_edit_keeps_exactly_inside_bases",
+            lambda: f"after edit {k} ({e['op']}) [{a}:{b}]: got {sorted(map(str, got_k))} want {sorted(map(str, want_k))}",
+        ):
+            break
     o.label("open_start" if a is None else "closed_start", "open_stop" if b is None else "closed_stop")
     if cut:
         o.label("cuts_location")
@@ -470,6 +524,20 @@ def run_annotseq_slice(case):
         "slice_does_not_mutate",
         "original annotation after slicing",
     )
+    # the shared annotation object edited in place, then the same slice of the annotated sequence
+    cur = list(case["features"])
+    for k, e in enumerate(case.get("edits", [])):
+        cur = _apply_edit(o, aseq.annotation, cur, e)
+        want_k, _ = model_slice(cur, lo, hi)
+        sub_k = _slice_obj(o, case, aseq, a, b)
+        got_k = _annotation_set(sub_k.annotation)
+        o.check_eq(_seq_str(sub_k.sequence), case["seq"][ia:ib], "slice_subsequence", "sub-sequence after in-place edit")
+        if not o.check(
+            got_k == want_k,
+            "annotseq_slice_after_inplace_edit_keeps_exactly_inside_bases",
+            lambda: f"after edit {k} ({e['op']}) [{a}:{b}] start={s0} len={n}: got {sorted(map(str, got_k))} want {sorted(map(str, want_k))}",
+        ):
+            break
     o.label("open_start" if a is None else "closed_start", "open_stop" if b is None else "closed_stop")
     o.label("start1" if s0 == 1 else "start_other")
     o.label("seqtype=" + case.get("seqtype", "nuc"))
